@@ -104,9 +104,8 @@ def PAREN2 : BList := [0x20, 0x28, 0x32, 0x29]
 def HYPHEN2 : BList := [0x2D, 0x32]
 
 /-- What `name_change` does to the text before the first `.`: an existing ` (N)` at the very
-    end is counted up, otherwise ` (2)` is appended.  `number + 1` is a plain `u32` addition:
-    it panics on overflow in builds with overflow checks (the crate's test profile and the
-    harness), and wraps to 0 otherwise. -/
+    end is counted up, otherwise ` (2)` is appended.  `number.checked_add(1)` (repair of D14:
+    `number + 1` used to overflow at 4294967295): at `u32::MAX` a fresh ` (2)` is appended. -/
 def bumpParen (first : BList) : Res BList :=
   match rfind SP_LPAREN first with
   | none => .ok (first ++ PAREN2)
@@ -120,7 +119,7 @@ def bumpParen (first : BList) : Res BList :=
         else
           match parseU32 ((first.drop (parenPos + 2)).take (endParen - 2)) with
           | some number =>
-            if number + 1 > U32_MAX then .panic
+            if number + 1 > U32_MAX then .ok (first ++ PAREN2)
             else .ok (first.take parenPos ++ SP_LPAREN ++ decimal (number + 1) ++ [RPAREN])
           | none => .ok (first ++ PAREN2)
       else .ok (first ++ PAREN2)
@@ -143,7 +142,7 @@ def bumpHyphen (first : BList) : Res BList :=
   | some pos =>
     match parseU32 (first.drop (pos + 1)) with
     | some number =>
-      if number + 1 > U32_MAX then .panic
+      if number + 1 > U32_MAX then .ok (first ++ HYPHEN2)
       else .ok (first.take pos ++ [HYPHEN] ++ decimal (number + 1))
     | none => .ok (first ++ HYPHEN2)
 
